@@ -56,7 +56,7 @@ def consts(mode, qflags, gflags=None, **kw):
 
 
 # ---- corpora over the keys the universe filters talk about ----------------------------------------------
-_VA = [Q.ABS, 0, 1, 1.0, 2.5, True, False, None, "1", "ab", [1, 2], [1.0, 2], {"x": 1}]
+_VA = [Q.ABS, 0, 1, 1.0, 2.5, True, False, None, "1", "ab", [1, 2], [1.0, 2], {"x": 1}, -1, -1.0]
 _VNX = [Q.ABS, 0, 1, 2.5, True, "ab", None]
 _VDX = [Q.ABS, 0, 1, 1.0, True, "1", "ab", [1, 2], None]
 
@@ -438,17 +438,21 @@ def _grec_worker(item):
     return recs
 
 
-def judge_groups(ctx, recs, qflags, gflags, name):
-    fin, fout = os.path.join(ctx.work, name + "_in.ndjson"), os.path.join(ctx.work, name + "_out.ndjson")
-    with open(fin, "w") as fh:
-        for r in recs:
-            fh.write(json.dumps({k: v for k, v in r.items() if k != "_info"}) + "\n")
-    cfgt = tlc.cfg(consts("gfile", qflags, gflags, NGCORP=1), init="GInitIdle", next="GNext", invariants=["SliceLaws"], postcondition="GJudge")
-    r = tlc.run("query/GroupBy.tla", cfg_text=cfgt, workdir=ctx.work, env={"GROUP_IN": fin, "GROUP_OUT": fout}, coverage=False, allow_violation=False)
-    ctx.add_tlc("GroupBy.tla file mode: %d recorded groupby results judged (%s)" % (len(recs), name), r)
-    out = [json.loads(l) for l in open(fout)]
-    if len(out) != len(recs):
-        raise core.MachineryError("TLC judged %d of %d groupby records" % (len(out), len(recs)))
+def judge_groups(ctx, recs, qflags, gflags, name, chunk=3000):
+    out = []
+    for c0 in range(0, len(recs), chunk):
+        part = recs[c0:c0 + chunk]
+        fin, fout = os.path.join(ctx.work, "%s_%d_in.ndjson" % (name, c0)), os.path.join(ctx.work, "%s_%d_out.ndjson" % (name, c0))
+        with open(fin, "w") as fh:
+            for r in part:
+                fh.write(json.dumps({k: v for k, v in r.items() if k != "_info"}) + "\n")
+        cfgt = tlc.cfg(consts("gfile", qflags, gflags, NGCORP=1), init="GInitIdle", next="GNext", invariants=["SliceLaws"], postcondition="GJudge")
+        r = tlc.run("query/GroupBy.tla", cfg_text=cfgt, workdir=ctx.work, env={"GROUP_IN": fin, "GROUP_OUT": fout}, coverage=False, allow_violation=False)
+        ctx.add_tlc("GroupBy.tla file mode: %d recorded groupby results judged (%s)" % (len(part), name), r)
+        res = [json.loads(l) for l in open(fout)]
+        if len(res) != len(part):
+            raise core.MachineryError("TLC judged %d of %d groupby records" % (len(res), len(part)))
+        out += res
     return out
 
 
@@ -487,7 +491,7 @@ def run(ctx):
                        "(top-level, nested, sp./doc. prefixed, tuples, None, callables) x defaults; plus seeded random records judged by TLC; labels restricted to sortable ones")
     qflags = c06.probe_flags(ctx)
     gflags = probe_flags(ctx)
-    ctx.cov["deviation_flags"] = {"FixedD1": qflags[0], "FixedD2": qflags[1], "FixedG1": gflags[0], "FixedG2": gflags[1]}
+    ctx.cov["deviation_flags"] = {"FixedD1": qflags[0], "FixedD2": qflags[1], "FixedD3": qflags[2], "FixedG1": gflags[0], "FixedG2": gflags[1]}
     rnd = random.Random(ctx.seed)
 
     # ---- 1. spellings ------------------------------------------------------------------------------------------
@@ -538,7 +542,7 @@ def run(ctx):
     for res in results:
         ncalls += res["calls"]; ncases += res["n"]; nmain += res["main"]
         for k in res["keys"]:
-            ctx._distinct.add(k)
+            ctx.count(k, n=0)
         cursor_recs += res["cursor"]
         for li, si, base, got, how in res["bad"]:
             sp, f = lines[li]["spellings"][si], lines[li]["filter"]
@@ -578,7 +582,7 @@ def run(ctx):
                     dict(rec["_info"], check="cursor", field=field, S=rec["S"]))
     ctx.count(n=len(cursor_recs), traces=len(cursor_recs))
     for i, rec in enumerate(cursor_recs):
-        ctx._distinct.add("cursor|%d|%d" % (len(rec["S"]), len(rec["iter"])))
+        ctx.count("cursor|%d|%d" % (len(rec["S"]), len(rec["iter"])), n=0)
     ctx.cov["cursor_records"] = len(cursor_recs)
     ctx.sample({"cursor_record": {k: v for k, v in cursor_recs[len(cursor_recs) // 2].items()}, "tlc_verdict": cv[len(cursor_recs) // 2]})
 
@@ -617,7 +621,7 @@ def run(ctx):
         for case, (verdict, real, selreal) in zip(bycorp.get(ci + 1, []), outs):
             d = Q.val_to_py(case["default"])
             info = {"corpus": jobs, "filter": Q.concrete(case["sel"]), "key": case["key"], "default": None if d is Q.ABS else d, "has_default": d is not Q.ABS}
-            ctx._distinct.add("g|%s|%s|%s|%d" % (json.dumps(case["key"]["keys"]), case["key"]["kind"] + case["key"]["fn"], d is Q.ABS, len(case["want"]["groups"])))
+            ctx.count("g|%s|%s|%s|%d" % (json.dumps(case["key"]["keys"]), case["key"]["kind"] + case["key"]["fn"], d is Q.ABS, len(case["want"]["groups"])), n=0)
             if verdict == "ok":
                 if case["dev"] != "ok":
                     ctx.spec_drift("model says %s deviates (%s) on %r but the real result equals the reference" % (key_text(case["key"], d), case["dev"], jobs))
